@@ -52,6 +52,11 @@ Record group := {
   g_shards : list shard;
   g_alive : list nat                  (* indexes of the shards whose partition is online (GetAliveShards) *)
 }.
+(* the same group with another list of alive shard indexes: GetAliveShards is evaluated when a row is written and again when
+   a query runs, and partitions go offline and come back in between *)
+Definition set_alive (g : group) (a : list nat) : group :=
+  {| g_id := g_id g; g_start := g_start g; g_end := g_end g; g_deleted := g_deleted g; g_trunc := g_trunc g;
+     g_shards := g_shards g; g_alive := a |}.
 Inductive shtype := Hash | Range.
 Record cfg := {
   c_mst : str;                        (* measurement name (with version) *)
